@@ -36,10 +36,10 @@ Init == heap = <<>> /\ hist = <<>>
 
 Op ==
     \/ "marginal" \in Ops /\ \E dims \in DistinctSeqs(d0) : AMarginal(1, dims)
-    \/ "linear_sum" \in Ops /\ p1.cls = "PDF" /\ \E ds \in 1..d0, s \in {0, 1}, bm \in {"none", "given"} :
+    \/ "linear_sum" \in Ops /\ \E ds \in 1..d0, s \in {0, 1}, bm \in {"none", "given"} :
            ALinearSum(1, Pick(WMenu(ds, d0), NumR(p1), s), Pick(VEC2(ds), NumR(p1), s), bm)
-    \/ "condition_on" \in Ops /\ p1.cls = "PDF" /\ \E dy \in ProperSeqs(d0) : AConditionOn(1, dy)
-    \/ "condition_on_explicit" \in Ops /\ p1.cls = "PDF" /\
+    \/ "condition_on" \in Ops /\ \E dy \in ProperSeqs(d0) : AConditionOn(1, dy)
+    \/ "condition_on_explicit" \in Ops /\
            \E dy \in ProperSeqs(d0) : \E dx \in Perms((1..d0) \ {dy[k] : k \in 1..Len(dy)}) : AConditionOnExplicit(1, dy, dx)
     \/ "entropy" \in Ops /\ AEntropy(1)
 
